@@ -123,7 +123,7 @@ CHECKS["C03"] = dict(cat="translation_validation", ref="4 C03 / 11.18", engine="
         "whose code points (0..0x2FFFF) are symbolic, index operands are symbolic 64-bit constants; the real constructors, Base.__new__ folding, the "
         "backend_concrete/strings.py kernels (re-compiled from the current source with string literals lifted to shadows) and the generic == / != dispatch "
         "are executed, and per explored path Z3's sequence theory decides folded result == SMT-LIB operation for all code points and index values. One "
-        "obligation per operation and operand-length combination (lengths 0..2 quick, 0..3 thorough), also on operands that differ only in annotations. "
+        "obligation per operation and operand-length combination (lengths 0..3 quick, 0..4 thorough; 0..2 / 0..3 for three string operands), also on operands that differ only in annotations. "
         "z3:<op> - BackendZ3's translation over StringS/BVS leaves against an independently built term. lit:<k> - 37 boundary literals (NUL, backslash, text "
         "that looks like a Z3 escape, quotes, astral characters) reach Z3 as exactly their code points. conc:IntToStr:<k> - boundary integers. "
         "lemma:references - the facts the fold-leg references rely on, proved by Z3 on every run. Counterexamples are replayed natively on plain Python strings "
